@@ -40,14 +40,14 @@ static double nowS() {
 // An assertion (CriticalFailure) thrown while another one unwinds, or out of a destructor, ends in std::terminate:
 // say which assertion it was, so that the crash gets a signature of its own.
 #include "libvpsc/assertions.h"
+#include "sigs.h"
 static void simTerminate() {
     try {
         std::exception_ptr e = std::current_exception();
         if (e) std::rethrow_exception(e);
         fprintf(stderr, "SIMTERMINATE: no-active-exception\n");
     } catch (vpsc::CriticalFailure &f) {
-        const char *file = strstr(f.file, "lib") ? strstr(f.file, "lib") : f.file;
-        fprintf(stderr, "SIMTERMINATE: assert@%s:%d\n", file, f.line);
+        fprintf(stderr, "SIMTERMINATE: %s\n", assertSig(f).c_str());
     } catch (std::exception &e) {
         fprintf(stderr, "SIMTERMINATE: std::exception\n");
     } catch (...) {
@@ -91,6 +91,32 @@ static std::string repoFrame(const std::string &line) {
     if (c1 != std::string::npos) { size_t c2 = s.find(':', c1 + 1); if (c2 != std::string::npos) s = s.substr(0, c2); }
     return s;
 }
+// file (without line) of a "/repo/cola/<lib>/<file>:<line>" mention
+static std::string repoFile(const std::string &line) {
+    std::string s = repoFrame(line);
+    size_t c = s.find(':');
+    return c == std::string::npos ? s : s.substr(0, c);
+}
+// sanitizer stack frame "    #1 0x... in Avoid::X::f(int) /repo/cola/libavoid/x.cpp:12:3" -> "libavoid/x.cpp:X::f"
+static std::string repoFrameFunc(const std::string &line) {
+    std::string file = repoFile(line);
+    if (file.empty()) return "";
+    size_t a = line.find(" in "), b = line.find(" /repo/cola/");
+    std::string fn = a != std::string::npos && b != std::string::npos && b > a + 4 ? sigFunc(line.substr(a + 4, b - a - 4)) : "?";
+    return file + ":" + fn;
+}
+// addr2line -f -C prints two lines per address (function, file:line): first pair whose file is inside /repo
+static std::string firstRepoFrameOf(const std::string &addrs) {
+    char exe[512]; ssize_t el = readlink("/proc/self/exe", exe, sizeof exe - 1); exe[el > 0 ? el : 0] = 0;
+    FILE *pp = popen((std::string("addr2line -f -C -e ") + exe + addrs).c_str(), "r");
+    std::string loc;
+    if (pp) {
+        char fb[2048], lb[2048];
+        while (fgets(fb, sizeof fb, pp) && fgets(lb, sizeof lb, pp)) { std::string file = repoFile(lb); if (!file.empty() && loc.empty()) loc = file + ":" + sigFunc(fb); }
+        pclose(pp);
+    }
+    return loc;
+}
 static void parseSanitizer(const std::string &err, Json &res, bool thrownAssert) {
     std::istringstream is(err);
     std::string line;
@@ -112,7 +138,7 @@ static void parseSanitizer(const std::string &err, Json &res, bool thrownAssert)
     while (std::getline(is, line)) {
         size_t re = line.find("runtime error:");
         if (re != std::string::npos) {
-            std::string loc = repoFrame(line);
+            std::string loc = repoFile(line);
             std::string msg = line.substr(re + 15);
             // normalise message: drop concrete values
             std::string kind = msg;
@@ -139,7 +165,7 @@ static void parseSanitizer(const std::string &err, Json &res, bool thrownAssert)
         if (framesLeft > 0 && !pendingKind.empty()) {
             if (line.find("    #") != std::string::npos) {
                 framesLeft--;
-                std::string loc = repoFrame(line);
+                std::string loc = repoFrameFunc(line);
                 if (!loc.empty()) {
                     if (pendingKind == "leak") {
                         if (thrownAssert) add("leak", "leak-after-assert", pendingDetail + " @" + loc);
@@ -158,12 +184,7 @@ static void parseSanitizer(const std::string &err, Json &res, bool thrownAssert)
             std::string cmd; std::streampos back = is.tellg(); std::string fl; int nf = 0;
             while (std::getline(is, fl) && fl.rfind("SIMAFRAME ", 0) == 0) { if (nf++ < 24) cmd += " " + fl.substr(10); back = is.tellg(); }
             is.clear(); is.seekg(back);
-            std::string loc;
-            if (!cmd.empty()) {
-                char exe[512]; ssize_t el = readlink("/proc/self/exe", exe, sizeof exe - 1); exe[el > 0 ? el : 0] = 0;
-                FILE *pp = popen((std::string("addr2line -e ") + exe + cmd).c_str(), "r");
-                if (pp) { char lb[1024]; while (fgets(lb, sizeof lb, pp)) { std::string l2 = repoFrame(lb); if (!l2.empty() && loc.empty()) loc = l2; } pclose(pp); }
-            }
+            std::string loc = cmd.empty() ? "" : firstRepoFrameOf(cmd);
             add("memory", kind + (loc.empty() ? "" : "@freed-at:" + loc), detail);
         }
     }
@@ -260,16 +281,11 @@ static Json execPlan(const Json &plan, double timeoutS, bool trace) {
             std::string csig = status == "timeout" ? "timeout" : "crash:" + status;
             if (err.find("SIMFRAME ") != std::string::npos) {
                 // first frame inside /repo, resolved with addr2line
-                char exe[512]; ssize_t el = readlink("/proc/self/exe", exe, sizeof exe - 1); exe[el > 0 ? el : 0] = 0;
-                std::string cmd = std::string("addr2line -e ") + exe;
+                std::string cmd;
                 std::istringstream es(err); std::string ln; int nf = 0;
                 while (std::getline(es, ln)) if (ln.rfind("SIMFRAME ", 0) == 0 && nf++ < 40) cmd += " " + ln.substr(9);
-                FILE *pp = popen(cmd.c_str(), "r");
-                if (pp) {
-                    char lb[1024];
-                    while (fgets(lb, sizeof lb, pp)) { std::string loc = repoFrame(lb); if (!loc.empty()) { csig += "@" + loc; break; } }
-                    pclose(pp);
-                }
+                std::string loc = cmd.empty() ? "" : firstRepoFrameOf(cmd);
+                if (!loc.empty()) csig += "@" + loc;
             }
             size_t tp = err.find("SIMTERMINATE: ");
             if (tp != std::string::npos) { std::string t = err.substr(tp + 14); t = t.substr(0, t.find('\n')); csig = "crash:terminate:" + t; }
